@@ -2,6 +2,7 @@
 growth protocol, plus the union-find rules (C29) and the LambdaBTree insert rules (C25) it rests on
 (DESIGN.md section C28)."""
 import os
+from props import comparators
 from engine import facts, pathflow, atomics, mutate
 from engine.facts import kids, walk, strip, is_call, call_args, call_obj, expr_key
 from engine.report import Report
@@ -310,6 +311,10 @@ def analyse(rep):
     rep.floor('R2-lock-operations', nl, 6)
     rep.floor('R4-growth-functions', analyse_piggy(rep, u), 3)
     rep.extra['mutating_methods'] = sorted(mutators)
+    # R5: the order of the sparse->dense element map, decided over the finite set of orderings
+    uc, = facts.extract([comparators.JOB])
+    rep.add_units([uc])
+    rep.floor('R5-comparator-classes', comparators.rule_comparators(rep, uc, r'EqrelMapComparator', 'R5-comparator-order'), 1)
     rep.extra['reading_methods'] = sorted(readers)
 
 
@@ -335,7 +340,14 @@ def run(tier='quick'):
         analyse_full(rep)
         ms = [mutate.Mutant(n, HDR, o, w, e) for (n, o, w, e) in MUTANTS]
         ms += [mutate.Mutant(n, 'src/include/souffle/datastructure/PiggyList.h', o, w, e) for (n, o, w, e) in MUTANTS_PIGGY]
-        mutate.run_mutants(rep, 'C28', ms if tier == 'thorough' else [ms[0], ms[3]], analyse)
+        ms += [mutate.Mutant('eqrel-map-order-by-subtraction', 'src/include/souffle/datastructure/UnionFind.h', '''        if (a.first < b.first) {
+            return -1;
+        } else if (b.first < a.first) {
+            return 1;
+        } else {
+            return 0;
+        }''', '        return static_cast<int>(a.first - b.first);', 'R5')]
+        mutate.run_mutants(rep, 'C28', ms if tier == 'thorough' else [ms[0], ms[3], ms[-1]], analyse)
     except facts.Broken as e:
         rep.analysis_broken(str(e))
     return rep.finish()
